@@ -36,6 +36,24 @@ A_MODIFY = 'Store::modify(f) runs f exactly once on the tables of the current wr
 A_EXTRACT = 'redb extract_from_if followed by Iterator::count is modelled by a prophecy on the table view resolved by count(); storage errors in the middle of that iteration are not modelled'
 
 PROPS = {
+    'C17': {
+        'vx': ['U-peers', 'U-peers-get'],
+        'kx': [],
+        'assumptions': [A_REDB, A_MODIFY, 'A-redb multimap: values of one key are listed in ascending (nanos, peer) order, each exactly once',
+                        'A-clock: the clock reading is an arbitrary u64; the most-recently-used characterisation is proved under the hypothesis that it is greater than every stored stamp (strictly increasing clock)',
+                        'PEERS_PER_DOC_CACHE_SIZE is a shell returning 5 (the const cannot be extracted)'],
+        'not_covered': ['survives reopening (redb durability)', 'non-atomic remove/insert on a storage error in between'],
+        'explanation': 'register_useful_peer performs exactly the MRU step (size <= 5, no duplicates, re-registration moves to front, oldest evicted), fails unchanged for unknown documents, frames all other tables; get_sync_peers lists most recent first; lemma: after any history with increasing clock the list is the five most recently registered distinct peers.',
+    },
+    'C18': {
+        'vx': ['U-mig'],
+        'kx': [],
+        'assumptions': [A_REDB, 'write transactions: tables opened from a transaction are prophecy-resolved views; commit installs them, dropping the transaction changes nothing; each table is opened at most once per transaction',
+                        'HashMap entry API (entry/and_modify/or_insert_with) is a shell over an abstract map'],
+        'not_covered': ['frame of tables a migration never opens (cannot be expressed in the transaction model), hence the end-to-end statement for a database lacking both derived tables is verified only up to the first transaction',
+                        'Execute paths of migrations 002/003 (v1 -> v2 namespaces) are accepted but not specified', 'redb v2 tuple migration'],
+        'explanation': 'migration_004 rebuilds the by-key index exactly iff it is empty; migration_001 rebuilds the heads exactly (greatest timestamp per author) iff heads are missing and records exist; run_migration commits iff Execute; an up-to-date database is left unchanged.',
+    },
     'C03': {
         'vx': ['U-valid-sig', 'U-valid-empty', 'U-valid-insert', 'U-valid-recon'],
         'kx': [KX['U-shift']],
@@ -66,7 +84,7 @@ PROPS = {
         'explanation': 'Capability::merge only upgrades and never replaces a write capability; raw/from_raw are inverse; import_namespace stores exactly the merge and touches no other row or table; load/close maintain the open set.',
     },
     'C09': {
-        'vx': ['U-codec-frame', 'U-cap-merge'],
+        'vx': ['U-codec-frame', 'U-cap-merge', 'U-rid', 'U-rid-order', 'U-heads-merge'],
         'kx': [],
         'assumptions': ['A-postcard: postcard::from_bytes / to_slice / serialized size are uninterpreted total functions; serde-derive code is not examined',
                         'BytesMut is an abstract growable byte buffer (len, advance, put_u32, resize, range indexing) with len <= isize::MAX'],
@@ -91,16 +109,17 @@ PROPS = {
         'explanation': 'set_download_policy only for existing documents and writes exactly one row; get returns the decoded row or the default; get-after-set round trip; DownloadPolicy::matches / FilterKind::matches equal the stated rule.',
     },
     'C02': {
-        'vx': ['U-store', 'U-bounds', 'U-valid-insert'],
+        'vx': ['U-store', 'U-bounds', 'U-valid-insert', 'L-join'],
         'kx': [KX['U-incr32'], KX['U-incr-var'], KX['U-ord']],
+        'bx': ['c02_order'],
         'assumptions': [A_REDB, A_INCR, A_BYTES, A_ENTRY, A_MODIFY, A_EXTRACT,
                         'the constructors of RecordsBounds used by the store units carry, as assumed contracts, exactly the postconditions proved on the real text in unit U-bounds',
                         'two entries with identical (author, key, timestamp, hash) but different len compare equal under Record::cmp; the contracts speak about the (timestamp, hash) order'],
-        'not_covered': ['the fold of put over arbitrary sequences (lemma L-join: held set is order independent) is not yet mechanised; the per-call contract put == put_spec is'],
+        'not_covered': ['the link between spec/putspec.rs (used by the L-join lemmas) and the postcondition of put in U-store is by construction of the text (same predicates), not machine-checked'],
         'explanation': 'ranger::Store::put on the real text equals its specification (admission test against every prefix entry incl. the empty key and deletion markers, exact pruning set, exact count, frame), proved modularly over the verified contracts of parents / remove_prefix_filtered / entry_put / range bounds.',
     },
     'C08': {
-        'vx': ['U-store', 'U-bounds', 'U-first', 'U-range'],
+        'vx': ['U-store', 'U-bounds', 'U-first', 'U-range', 'U-rid-order'],
         'kx': [KX['U-incr32'], KX['U-incr-var'], KX['U-ord'], KX['U-xor']],
         'assumptions': [A_REDB, A_INCR, A_BYTES, A_ENTRY, A_MODIFY, A_EXTRACT],
         'not_covered': ['transcript equality of whole sessions across backends (relational over process_message, see C01)',
@@ -109,10 +128,12 @@ PROPS = {
         'explanation': 'Each storage primitive of the redb-backed reconciliation store returns what the ordered-map definition prescribes: prefix lookup, filtered prefix removal, single put, range bounds.',
     },
     'C13': {
-        'vx': ['U-store', 'U-rmrep'],
+        'vx': ['U-store', 'U-rmrep', 'U-heads', 'U-heads-merge', 'U-heads-store', 'U-heads-latest', 'L-join'],
         'kx': [],
+        'bx': ['heads_encode', 'c13_heads'],
         'assumptions': [A_REDB, A_ENTRY, A_MODIFY],
-        'not_covered': ['AuthorHeads::insert/merge (BTreeMap::entry API)', 'induction over put sequences (L-heads) not mechanised'],
+        'not_covered': ['AuthorHeads::insert (BTreeMap::entry().and_modify().or_insert(): rejected by Verus; assumed max-merge contract, checked only by the bounded stand-in heads_encode)',
+                        'AuthorHeads::encode (BTreeSet::into_iter().rev() + postcard: orphan rule prevents an iterator spec, CBMC does not terminate on BTreeMap): bounded stand-in heads_encode only'],
         'explanation': 'entry_put keeps the per-author head at the maximum timestamp; remove_replica deletes the heads of the removed document.',
     },
     'C16': {
